@@ -7,6 +7,7 @@ specification the theorems quantify over ALL schedules: a schedule is an arbitra
 scheduler choices (which goroutine moves next); choices that are not enabled are skipped.
 -/
 import Anko.Proofs.Chan
+import Anko.Gen.ChanOps
 
 namespace Anko.C16
 open Anko.Chan
@@ -143,6 +144,12 @@ runs for ever: together with the two theorems above, every schedule that keeps c
 goroutines ends with all items delivered. -/
 theorem pipeline_every_move_progresses (p p' : Pipe) (m : Move) (h : p.step m = some p') : p'.variant < p.variant :=
   step_variant p p' m h
+
+/-- The interpreter performs channel operations only as blocking `reflect.Select`s (regenerated from
+vm/*.go on every run): there is no direct Send / Recv and no TrySend / TryRecv whose result could
+be dropped - so each script-level send corresponds to exactly one `send` event of the specification. -/
+theorem channel_ops_are_selects :
+    Gen.ChanOps.bareReflectOps = [] ∧ Gen.ChanOps.selects.all (·.2) = true ∧ 4 ≤ Gen.ChanOps.selects.length := by decide
 
 /-! ### Non-vacuity: a concrete pipeline under two different schedules -/
 def demoPipe : Pipe := Pipe.init [1, 2, 3] [((· + 10), 0), ((· * 2), 2)]
